@@ -154,6 +154,29 @@ Proof.
       destruct (0 <? n); [rewrite (url_ok v Hf)|]; cbn [bind]; eauto end.
 Qed.
 
+(* The archiver's side of the invariant: whenever ProcessBody returns nil the MIME type has been
+   set - for every status code (ProcessBody does not look at it) and every failure pattern.  The
+   response and the parsed URL are set by archive() / preprocess before ProcessBody is called.
+   (Tied to the real ProcessBody by the monitor archiver_establishes_invariant of the dispatch and
+   fuzz legs: a ProcessBody that returns early without sniffing breaks it.) *)
+Theorem process_body_sets_mime_lemma :
+  forall e mime_set body_set, process_body e = Some (mime_set, body_set) -> mime_set = true.
+Proof.
+  intros e m b. unfold process_body.
+  destruct (e_deadline_err e); [discriminate|].
+  destruct (e_discard_first e && e_discard_err e); [discriminate|].
+  destruct (e_copyn_err e); [discriminate|].
+  destruct (e_keep e).
+  - destruct (e_spool_err e); [discriminate|]. destruct (e_rest_err e); [discriminate|]. intros [= <- _]. reflexivity.
+  - destruct (e_drop_err e); [discriminate|]. intros [= <- _]. reflexivity.
+Qed.
+
+Example process_body_nonvacuous :
+  process_body (PbEnv false false false false true false false false) = Some (true, true)
+  /\ process_body (PbEnv false true false false false false false false) = Some (true, false)
+  /\ process_body (PbEnv false false false true true false false false) = None.
+Proof. repeat split; reflexivity. Qed.
+
 (* an item that is not archived is returned untouched, whatever is nil *)
 Theorem dispatch_not_archived_lemma :
   forall c v p x, v_status v <> Archived -> postprocess_item c v p x = Ok (Out (v_status v) 0 0).
